@@ -94,8 +94,28 @@ struct Proc {
     stdout: BufReader<ChildStdout>,
 }
 
+/// Stack of the processes that run calamine: 2 MiB, the default of `std::thread` (and of the
+/// usual thread pools), not the 8 MiB of a main thread — recursion that follows the nesting of
+/// the input then shows as a crash at the depth at which it would in a library user's worker
+/// thread.  The limit is applied between fork and exec, so it sizes the child's main thread.
+pub const STACK_BYTES: u64 = 2 << 20;
+
+fn limit_stack(cmd: &mut Command) -> &mut Command {
+    use std::os::unix::process::CommandExt;
+    unsafe {
+        cmd.pre_exec(|| {
+            let lim = libc::rlimit { rlim_cur: STACK_BYTES, rlim_max: STACK_BYTES };
+            if libc::setrlimit(libc::RLIMIT_STACK, &lim) != 0 {
+                return Err(std::io::Error::last_os_error());
+            }
+            Ok(())
+        })
+    }
+}
+
 fn spawn_worker(prop: &str, tier: Tier, seed: u64) -> Result<Proc, String> {
-    let mut child = Command::new(self_exe())
+    let mut cmd = Command::new(self_exe());
+    let mut child = limit_stack(&mut cmd)
         .args(["worker", prop, tier.name(), &seed.to_string()])
         .stdin(Stdio::piped())
         .stdout(Stdio::piped())
@@ -231,7 +251,8 @@ fn worker_thread(prop: String, tier: Tier, seed: u64, queue: Arc<Mutex<Vec<(u64,
 
 /// Run one spec in a fresh process.  Returns the result, or the death as a violation.
 pub fn exec_spec_isolated(spec: &RunSpec, cpu_scale: i64) -> Result<RunResult, String> {
-    let mut child = Command::new(self_exe())
+    let mut cmd = Command::new(self_exe());
+    let mut child = limit_stack(&mut cmd)
         .args(["exec-spec", &cpu_scale.to_string()])
         .stdin(Stdio::piped())
         .stdout(Stdio::piped())
